@@ -276,23 +276,25 @@ theorem readLoad_spec (cfg : Cfg) (g : Bool) (s : Sess) (db : Db) (cid : Nat) (a
         · exact Frozen.refl s
         · split
           · exact Frozen.refl s
-          · rename_i hnr
-            intro c x hpc
-            by_cases hc : c = cid
-            · subst hc
-              simp only [setC, upd_same]
-              refine ⟨hpc, fun hr => ⟨by simpa [prot] using hr, ?_⟩⟩
-              by_cases hw : (s.c c).wmask a = true
-              · simp [hw]
-              · simp only [hw, Bool.false_eq_true, if_false]
-                have : x ≠ a := by
-                  intro e; subst e
-                  simp only [prot, Bool.and_eq_true, Bool.or_eq_true] at hr
-                  rcases hr.2 with h1 | h1
-                  · exact hnr h1
-                  · exact hw h1
-                exact upd_other _ _ _ _ this
-            · simp only [setC, upd_other _ _ _ _ hc]; exact ⟨hpc, fun hr => ⟨hr, by trivial⟩⟩
+          · split
+            · exact Frozen.of_obj s cid _ rfl rfl (fun x h => by simpa [prot] using h)
+            · rename_i hnr _
+              intro c x hpc
+              by_cases hc : c = cid
+              · subst hc
+                simp only [setC, upd_same]
+                refine ⟨hpc, fun hr => ⟨by simpa [prot] using hr, ?_⟩⟩
+                by_cases hw : (s.c c).wmask a = true
+                · simp [hw]
+                · simp only [hw, Bool.false_eq_true, if_false]
+                  have : x ≠ a := by
+                    intro e; subst e
+                    simp only [prot, Bool.and_eq_true, Bool.or_eq_true] at hr
+                    rcases hr.2 with h1 | h1
+                    · exact hnr h1
+                    · exact hw h1
+                  exact upd_other _ _ _ _ this
+              · simp only [setC, upd_other _ _ _ _ hc]; exact ⟨hpc, fun hr => ⟨hr, by trivial⟩⟩
     · split
       next s1 x e heq => exact fetchRows_frozen' heq
       next s1 objs heq => split <;> exact fetchRows_frozen' heq
@@ -742,7 +744,7 @@ theorem readCore_full (cfg : Cfg) (s : Sess) (db : Db) (cid : Nat) (a : Attr) :
           · exact FullFrozen.refl s
           · split
             · exact FullFrozen.refl s
-            · exact FullFrozen.of_kids_eq rfl
+            · split <;> exact FullFrozen.of_kids_eq rfl
       · split
         next s1 x e heq => have hf := fetchRows_full' heq; exact hf
         next s1 objs heq =>
